@@ -109,17 +109,19 @@ def is_lit(ctx, seg, data):
     return ctx.branch(zand(*[_eq(e, c) for e, c in zip(seg, data)]))
 
 
-def ref_canon_path(ctx, es, s3):
+def ref_canon_path(ctx, es, s3, plus_is_space=False):
     """Reference canonical path.  Returns a list of acceptable outputs (each a list of Ints);
     raises RefError('InvalidURIPath') for relative paths, malformed escapes, and (standard
-    mode) paths that climb above the root."""
+    mode) paths that climb above the root.
+    plus_is_space=True gives the *F6 variant* (a literal '+' in a path segment read as a space): it is never the
+    expectation, only the yardstick that tells whether a deviation is exactly the known finding F6 or something else."""
     SL = Int('u8', 0x2F)
     if not es:
         return [[SL]]
     if not ctx.branch(_eq(es[0], 0x2F)):
         raise RefError('InvalidURIPath', 'relative path')
     segs = split_on(ctx, es, 0x2F)[1:]
-    dec = [pct_decode(ctx, s, False, 'InvalidURIPath') for s in segs]
+    dec = [pct_decode(ctx, s, plus_is_space, 'InvalidURIPath') for s in segs]
     if s3:
         out = []
         for s in dec:
